@@ -70,7 +70,7 @@ YKINDS = ["convex", "random", "concave", "noisy_convex", "tilted"]
 def gen_points(rng, d, n, R, ykind, Ry=60):
     """n integer hull-space points in general position (positions in [-R,R]^d, targets of
     magnitude about Ry); returns (points, rejected draws)."""
-    pts, rej = [], 0
+    pts, rej, restarts = [], 0, 0
     tilt = [rng.randint(-3, 3) for _ in range(d)]
     qmax = R * R * d
     nz = max(1, Ry // 60)
@@ -92,9 +92,56 @@ def gen_points(rng, d, n, R, ykind, Ry=60):
             pts.append(cand)
         else:
             rej += 1
-            if rej > 200 * n:
-                raise RuntimeError("cannot reach general position")
+            if rej > 200 * n * (restarts + 1):
+                # e.g. the first two draws share their position (nothing checks a pair when
+                # d >= 2), after which every candidate is rejected: start over
+                restarts += 1
+                if restarts > 20:
+                    raise RuntimeError("cannot reach general position")
+                pts = []
     return pts, rej
+
+
+def gp_ok_new_stacked(P, cand, d):
+    """general position for sample sets in which SOME samples share their position with one
+    other sample (different target): the distinct positions are in general position (no d+1
+    affinely dependent), no two samples coincide, no three share a position, and no d+2
+    hull-space points lie on a common NON-vertical hyperplane.  (d+2 points on a vertical
+    hyperplane would need d+1 affinely dependent distinct positions, or three samples at
+    one position.)  Checks only the subsets containing cand."""
+    cpos = tuple(cand[1:])
+    same = [p for p in P if tuple(p[1:]) == cpos]
+    if len(same) > 1 or any(p[0] == cand[0] for p in same):
+        return False
+    seen, Pd = {cpos}, []
+    for p in P:
+        t = tuple(p[1:])
+        if t not in seen:
+            seen.add(t)
+            Pd.append(p)
+    m = len(Pd)
+    if m >= d:
+        Hm = _homog(list(Pd) + [cand], True)
+        idx = combos(m, d)
+        M = np.concatenate([Hm[idx], np.broadcast_to(Hm[m], (len(idx), 1, Hm.shape[1]))], axis=1)
+        if np.any(det(M) == 0):
+            return False
+    # hull space: subsets without a same-position pair and without cand's partner
+    Q = [p for p in P if tuple(p[1:]) != cpos]
+    m = len(Q)
+    if m >= d + 1:
+        Hm = _homog(list(Q) + [cand], False)
+        idx = combos(m, d + 1)
+        M = np.concatenate([Hm[idx], np.broadcast_to(Hm[m], (len(idx), 1, Hm.shape[1]))], axis=1)
+        dets = det(M)
+        ids = {}
+        pos = np.array([ids.setdefault(tuple(p[1:]), len(ids)) for p in Q])
+        pp = pos[idx]
+        srt = np.sort(pp, axis=1)
+        has_pair = np.any(srt[:, 1:] == srt[:, :-1], axis=1)
+        if np.any((dets == 0) & ~has_pair):
+            return False
+    return True
 
 
 # ------------------------------------------------------------------ exact lower hull
@@ -196,10 +243,24 @@ def build_X(P, low, nfeat, hd):
     return X
 
 
-def fit(X, y, low, tol):
+def fit(X, y, low, tol, history=None):
+    """history = None: a fresh estimator.  Otherwise the SAME object is first taken through an
+    earlier life (fit on other data with other low_dim_idx / tolerance / feature count, scored),
+    then its public parameters are changed and it is fitted again: a refit must be a fresh fit."""
     from skmatter.sample_selection import DirectionalConvexHull
     kw = {} if tol is None else dict(tolerance=tol)
-    m = DirectionalConvexHull(low_dim_idx=list(low), **kw)
+    if history is None:
+        m = DirectionalConvexHull(low_dim_idx=list(low), **kw)
+    else:
+        hkw = {} if history["tol"] is None else dict(tolerance=history["tol"])
+        m = DirectionalConvexHull(low_dim_idx=list(history["low"]), **hkw)
+        hX, hy = np.array(history["X"], dtype=float), np.array(history["y"], dtype=float)
+        m.fit(hX, hy)
+        if history.get("score", True):
+            m.score_samples(hX, hy)
+            m.score_feature_matrix(hX)
+        m.low_dim_idx = list(low)
+        m.tolerance = 1e-12 if tol is None else tol
     m.fit(np.array(X, dtype=float), np.array(y, dtype=float))
     return m
 
@@ -212,11 +273,17 @@ def read_hull(m):
     return eq, sx
 
 
-def observe(X, y, low, tol, queries=None):
-    """fit and record everything C19 observes.  queries = list of (x_row, y)."""
+def observe(X, y, low, tol, queries=None, history=None, queries_first=False):
+    """fit and record everything C19 observes.  queries = list of (x_row, y).
+    queries_first: score the queries before the training samples (scoring must not depend on
+    what was scored before)."""
     rec = {}
     try:
-        m = fit(X, y, low, tol)
+        m = fit(X, y, low, tol, history)
+        if queries and queries_first:
+            m.score_samples(np.array([q[0] for q in queries], dtype=float),
+                            np.array([q[1] for q in queries], dtype=float))
+        rec["n_features_in"] = int(m.n_features_in_)
         Xa, ya = np.array(X, dtype=float), np.array(y, dtype=float)
         eq, sx = read_hull(m)
         rec["sel"] = [int(i) for i in m.selected_idx_]
@@ -241,10 +308,112 @@ def observe(X, y, low, tol, queries=None):
             rec["qdist"] = [float(v) for v in m.score_samples(Xq, yq)]
         else:
             rec["qdist"] = []
+        if not np.all(np.isfinite(rec["dist"] + rec["qdist"])):
+            # e.g. a vertical facet (y-normal 0) kept among the directional facets
+            bad = [v for v in rec["dist"] + rec["qdist"] if not np.isfinite(v)]
+            rec = dict(error="NonFiniteDistance",
+                       error_msg="score_samples returned %d non-finite distances (first %r); selected_idx_ %s"
+                                 % (len(bad), bad[0], rec["sel"]))
     except Exception as e:  # noqa
         rec["error"] = type(e).__name__
         rec["error_msg"] = str(e)[:300]
     return rec
+
+
+# ------------------------------------------------------------------ lives of one object
+# ops: ["fit", nfeat] | ["set", low] | ["score", ncols]; outcome codes as Model/DCHExt.v
+# outcome_code: 0 done, 1 ValueError, 2 IndexError, 3 NotFittedError (9 = anything else)
+def gen_life(rng):
+    def gen_low():
+        if rng.random() < 0.2:
+            return [rng.randint(-5, -1)]
+        return rng.sample(range(0, 5), rng.randint(1, 3))
+    low0 = gen_low()
+    ops = []
+    for _ in range(rng.randint(4, 9)):
+        r = rng.random()
+        if r < 0.3:
+            ops.append(["set", gen_low()])
+        elif r < 0.65:
+            ops.append(["fit", rng.randint(2, 6)])
+        else:
+            ops.append(["score", rng.randint(2, 6)])
+    return dict(low0=low0, ops=ops, seed=rng.randrange(2 ** 31))
+
+
+def _code(thunk):
+    from sklearn.exceptions import NotFittedError
+    try:
+        thunk()
+        return 0
+    except NotFittedError:
+        return 3
+    except ValueError:
+        return 1
+    except IndexError:
+        return 2
+    except Exception:  # noqa
+        return 9
+
+
+def run_life(life):
+    """the life on the implementation (generic random data: qhull succeeds whenever it is
+    reached); returns the outcome codes of the fit / score operations."""
+    from skmatter.sample_selection import DirectionalConvexHull
+    rs = np.random.RandomState(life["seed"])
+    m = DirectionalConvexHull(low_dim_idx=list(life["low0"]))
+    codes = []
+    for op, arg in life["ops"]:
+        if op == "set":
+            m.low_dim_idx = list(arg)
+        elif op == "fit":
+            X, y = rs.rand(12, arg), rs.rand(12)
+            codes.append(_code(lambda: m.fit(X, y)))
+        else:
+            X, y = rs.rand(3, arg), rs.rand(3)
+            codes.append(_code(lambda: m.score_samples(X, y)))
+    return codes
+
+
+def life_model(life):
+    """Python mirror of Model/DCHExt.v run_life (used by replay and to label a disagreement)."""
+    low, nfeat, high, hull_dim = list(life["low0"]), None, None, None
+    codes = []
+    for op, arg in life["ops"]:
+        if op == "set":
+            low = list(arg)
+        elif op == "fit":
+            nfeat = arg
+            if max(abs(v) for v in low) > arg and min(low) >= 0:
+                codes.append(1)
+                continue
+            high = True
+            if any(v >= arg or v < -arg for v in low):
+                codes.append(2)
+                continue
+            hull_dim = len(low) + 1
+            codes.append(0)
+        else:
+            if hull_dim is None or high is None or nfeat is None:
+                codes.append(3)
+            elif arg != nfeat:
+                codes.append(1)
+            elif any(v >= arg or v < -arg for v in low):
+                codes.append(2)
+            elif hull_dim != len(low) + 1:
+                codes.append(1)
+            else:
+                codes.append(0)
+    return codes
+
+
+def life_lit(life, codes):
+    def zl(l):
+        return "[" + "; ".join(Zs(v) for v in l) + "]%Z"
+    ops = []
+    for op, arg in life["ops"]:
+        ops.append("OpSet %s" % zl(arg) if op == "set" else "Op%s %d" % ("Fit" if op == "fit" else "Score", arg))
+    return "life_ok %s [%s] [%s]%%nat" % (zl(life["low0"]), "; ".join(ops), "; ".join("%d" % c for c in codes))
 
 
 # ------------------------------------------------------------------ contract residuals
@@ -276,7 +445,19 @@ def contract_residuals(P, rec, extra_positions=()):
             continue
         best = np.maximum(best, lam.min(axis=0))
     h3 = float(-np.min(best)) if len(pos) else 0.0
-    return dict(h1=h1, h2=h2, h3=h3, n_lower=int(len(low)),
+    # contract_simplex (exact): the projected vertices of every kept facet are affinely independent;
+    # contract_gp (numerical): smallest |n.p + b| of a sample that is not a vertex of the kept facet
+    nzero, gap = 0, float("inf")
+    Pi = np.array(P, dtype=np.int64) if all(float(v).is_integer() for p in P for v in p) else None
+    for f in low:
+        if Pi is not None:
+            A = np.concatenate([np.ones((len(sx[f]), 1), dtype=np.int64), Pi[sx[f]][:, 1:]], axis=1)
+            nzero += int(det(A[None])[0] == 0)
+        others = np.setdiff1d(np.arange(len(Pa)), sx[f])
+        if len(others):
+            gap = min(gap, float(np.min(np.abs(g[others, f]))) / scale)
+    return dict(h1=h1, h2=h2, h3=h3, n_lower=int(len(low)), simplex_det_zero=nzero,
+                gp_min_gap=gap if gap < float("inf") else None,
                 min_abs_ny=float(np.min(np.abs(eq[low, 0]))) if len(low) else 0.0)
 
 
